@@ -435,6 +435,13 @@ struct runner
 			std::size_t n = udpsocks.at(arg(1))->send_to(cb, udps::endpoint(mk_addr(t[k + 2], arg(3)), (unsigned short)arg(4)), 0, ec);
 			tr.line("L t=%lld 4 2 %lld %d %zu", now_ns(), arg(1), ec_code(ec), n);
 		}
+		else if (c == "udp_wait_write")
+		{
+			long long h = arg(2);
+			udpsocks.at(arg(1))->async_wait(udps::socket::wait_write, [this, h](boost::system::error_code const& ec) {
+				run_handler(h, " " + std::to_string(ec_code(ec)));
+			});
+		}
 		else if (c == "udp_send_bytes")
 		{
 			std::string const data = unhex(t[k + 5]);
